@@ -113,6 +113,11 @@ def grid_specs(tier="quick", dimension=1, with_model_grids=True):
     return res
 
 
+class OutsideAlphabet(Exception):
+    """The spec does not describe an object the library promises to build (e.g. a credit threshold that is not strictly
+    between the left truncation and -h): the case is outside the alphabet and is counted, never an alarm."""
+
+
 def make_grid(gspec, model, dimension=1):
     from rpylib.grid import spatial as S
 
@@ -137,6 +142,9 @@ def make_grid(gspec, model, dimension=1):
         else:
             frs = fr if isinstance(fr, (list, tuple)) else [fr] * dimension
             a = [float(f * l) for f in frs]
+        for ai in (a if isinstance(a, list) else [a]):
+            if not (l < ai < -gspec["h"] - 1e-12):
+                raise OutsideAlphabet(f"credit threshold {ai} not strictly inside ({l}, {-gspec['h']})")
         g = S.CTMCCredit(h=gspec["h"], level_a=a, model=model, symmetric_grid=gspec.get("symmetric", True))
     else:
         raise ValueError(k)
